@@ -147,3 +147,32 @@ macro_rules! c16_aliases {
         });
     };
 }
+
+/// decimal parsing gives the same verdict and value in two configurations: equal width (two digit types) or narrow/wide
+/// (then: whenever the narrow type accepts, the wide type accepts the same value)
+#[macro_export]
+macro_rules! c16_parse {
+    ($name:ident, $unw:expr, $A:ty, $AD:ty, $AN:expr, $B:ty, $BD:ty, $BN:expr, $L:expr) => {
+        $crate::harness!($name, $unw, {
+            use $crate::util::*;
+            use bnum::cast::As;
+            const SAME: bool = <$AD>::BITS * $AN == <$BD>::BITS * $BN;
+            let buf: [u8; $L] = $crate::nd::nd();
+            let len: usize = $crate::nd::nd();
+            $crate::nd::assume(len <= $L);
+            let mut k = 0;
+            while k < $L { $crate::nd::assume(buf[k] < 0x80); k += 1; }
+            let s: &str = unsafe { core::str::from_utf8_unchecked(&buf[..len]) };
+            let ra = <$A>::from_str_radix(s, 10);
+            let rb = <$B>::from_str_radix(s, 10);
+            match (&ra, &rb) {
+                (Ok(x), Ok(y)) => { let c: $B = (*x).as_(); assert!(deq(&c.dg(), &y.dg()), "same value in both configurations"); }
+                (Ok(_), Err(_)) => assert!(false, "accepted by the narrow / first configuration only"),
+                (Err(_), Ok(_)) => assert!(!SAME, "equal width: accepted by the second configuration only"),
+                (Err(e), Err(f)) => assert!(!SAME || e.kind() == f.kind(), "equal width: same error kind"),
+            }
+            $crate::reach!(ra.is_ok() && len == $L && buf[0] == b'0', "zero-padded numeral accepted");
+            $crate::reach!(ra.is_err() && rb.is_ok(), "fits only the wide type");
+        });
+    };
+}
